@@ -28,7 +28,8 @@ func TestMain(m *testing.M) {
 	vkit.Main(m)
 }
 
-var specific = []string{"alpha", "beta", "gamma", "delta", "epsilon"}
+// (names on both sides of the library's own "v1-nodee-..." entries in sort order)
+var specific = []string{"alpha", "zulu", "worker-proxy", "beta", "gamma", "delta", "epsilon"}
 
 type delivery struct {
 	listener string
@@ -170,7 +171,7 @@ func TestProp_Routing(t *testing.T) {
 		nameAlphabet := append([]string{"h2", "__AUTH__", "__UNAUTH__", "zeta"}, specific...)
 		// names that merely resemble registered ones: a registered name plus a suffix, a
 		// registered name cut short, another case (a sub-listener is found by its exact name)
-		nameAlphabet = append(nameAlphabet, "alpha-admin", "alpha2", "alph", "beta/v2", "bet", "Gamma", "gamma ", "__AUTH__x", "__UNAUTH__2")
+		nameAlphabet = append(nameAlphabet, "alpha-admin", "alpha2", "alph", "beta/v2", "bet", "Gamma", "gamma ", "__AUTH__x", "__UNAUTH__2", "zulu2", "worker", "yamux")
 		// the consumer of one specific sub-listener may close it while everything else
 		// goes on; clients offering OTHER registered names are routed as before (what
 		// happens to clients offering the closed name is not specified: not judged)
